@@ -17,7 +17,7 @@ def frontend_methods(fb):
     out = {}
     for f in fb.find(self_adt="Frontend"):
         if f.trait and (f.trait.endswith("::VhostBackend") or f.trait.endswith("::VhostUserFrontend")):
-            out[f.name] = f
+            out[f.name] = fb.inl(f)
     return out
 
 
